@@ -223,38 +223,52 @@ def make_api(it, session: Session):
         return None
 
     # ---------------------------------------------------------------- heap snapshots
+    from .fields import Seen, baseline
+
     def snap(v, seen, ignore):
         if isinstance(v, Obj):
-            if v.oid in seen:
-                return ("ref", seen[v.oid])
-            seen[v.oid] = len(seen)
-            idx = seen[v.oid]
+            r = seen.ref(v.oid)
+            if r is not None:
+                return ("ref", r)
+            idx = seen.new(v.oid)
             if v.cls.is_enum:
                 return ("enum", v.cls.qualname, v.fields.get("name"))
             flds = {}
+            pkg = v.cls.qualname.startswith("architecture_simulator")
             for f, x in v.fields.items():
                 if f in ignore:
                     continue
-                flds[f] = snap(x, seen, ignore)
+                if pkg and f not in baseline():
+                    # an attribute the contracts do not model: snapshotted in an object numbering of its own, so that
+                    # what hangs below it cannot shift the numbering of the modelled heap
+                    seen.depth_u += 1
+                    try:
+                        flds[f] = snap(x, seen, ignore)
+                    finally:
+                        seen.depth_u -= 1
+                else:
+                    flds[f] = snap(x, seen, ignore)
             items = [snap(x, seen, ignore) for x in v.items] if v.items is not None else None
             return ("obj", v.cls.qualname, idx, flds, items)
         if isinstance(v, LogList):
             return ("tuple", [snap(x, seen, ignore) for x in it.iterate(v)])
         if isinstance(v, list):
-            if id(v) in seen:
-                return ("ref", seen[id(v)])
-            seen[id(v)] = len(seen)
-            return ("list", seen[id(v)], [snap(x, seen, ignore) for x in v])
+            r = seen.ref(id(v))
+            if r is not None:
+                return ("ref", r)
+            idx = seen.new(id(v))
+            return ("list", idx, [snap(x, seen, ignore) for x in v])
         if isinstance(v, tuple):
             return ("tuple", [snap(x, seen, ignore) for x in v])
         if isinstance(v, DictV):
-            if id(v) in seen:
-                return ("ref", seen[id(v)])
-            seen[id(v)] = len(seen)
+            r = seen.ref(id(v))
+            if r is not None:
+                return ("ref", r)
+            seen.new(id(v))
             c = it.dm_copy(v, [], {})
             if not c.sym and c.base is None:
                 c.entries = [[kk, snap(vv, seen, ignore)] for kk, vv in c.entries]
-            return ("dict", seen[id(v)], c)
+            return ("dict", seen.ref(id(v)), c)
         if isinstance(v, (set, frozenset)):
             return ("set", frozenset(v) if all(not isinstance(x, (Obj,)) for x in v) else tuple(id(x) for x in v))
         if isinstance(v, (ClassV, FuncV, Builtin, BoundMethod, ModuleV, FixedType, TypingDummy)):
@@ -264,7 +278,7 @@ def make_api(it, session: Session):
     @reg("snapshot")
     def snapshot(it_, a, k):
         ignore = set(k.get("ignore", ()))
-        seen = {}
+        seen = Seen()
         return Snap(tuple(snap(x, seen, ignore) for x in a))
 
     def diff(x, y, path, out):
